@@ -88,7 +88,7 @@ func DefaultIntrinsics() map[string]Intrinsic {
 			s.define(ps.st, nc)
 			g := s.gen
 			s.Push()
-			s.send("(assert " + nc.ref() + ")")
+			s.AssertRef(nc.ref())
 			ps.queries++
 			r := s.Check()
 			if s.gen != g {
@@ -501,6 +501,9 @@ func DefaultIntrinsics() map[string]Intrinsic {
 	m["time.now"] = func(fr *frame, args []value) value { return tuple{int64(1700000000), int32(0), int64(2)} }
 	m["runtime.KeepAlive"] =func(fr *frame, args []value) value { return nil }
 	m["runtime.SetFinalizer"] = func(fr *frame, args []value) value { return nil }
+	for _, f := range extraIntrinsics {
+		f(m)
+	}
 	return m
 }
 
